@@ -59,8 +59,11 @@ func c09Compare(r *core.Result, what string, want []tree.Entry, got []*types.Sta
 		}
 		// link names are demanded for regular files; for hard-linked special
 		// files either representation is accepted
-		if want[i].Type != tree.File && want[i].Type != tree.Symlink && want[i].Type != tree.Dir {
-			w.Linkname = g.Linkname
+		// (reported as an entry of its own, or as a link naming the first
+		// member - with the sub-root's prefix where there is one; any other
+		// name would point at nothing in the stream)
+		if want[i].Type != tree.File && want[i].Type != tree.Symlink && want[i].Type != tree.Dir && g.Linkname == "" {
+			w.Linkname = ""
 		}
 		if want[i].Type == tree.Symlink && prefix != "" && strings.HasPrefix(want[i].Target, "/") {
 			if g.Linkname == path.Join("/"+prefix, want[i].Target) {
